@@ -8,7 +8,7 @@ Extraction "model.ml"
   DD.dd_eqb DD.mk DD.unpack DD.evalS DD.evalL DD.eval DD.reducedb DD.of_fun
   DD.apply2 DD.apply1 DD.copy DD.all_asg DD.table
   Build.build Build.build_spec Build.const_dd Build.var_dd Build.matches
-  Scalar.scalar2 Scalar.scalar2_undefined Scalar.compl Scalar.conv
+  Scalar.scalar2 Scalar.scalar2_undefined Scalar.compl Scalar.conv Scalar.ev_undefined Scalar.ev_scalar2 Scalar.ev_compare Scalar.conv_to_ev Scalar.conv_from_ev
   Terminal.getIntegerHandle Terminal.getRealHandle Terminal.setFromHandle_INTEGER
   Terminal.setFromHandle_REAL Terminal.setFromHandle_BOOLEAN Terminal.intMin Terminal.intMax
   MemSpec.accept MemSpec.fl_init MemSpec.fl_request MemSpec.fl_recycle
